@@ -156,6 +156,21 @@ Theorem C39_difference_exact : forall a b, 0 <= a < 2 ^ 24 -> 0 <= b < 2 ^ 24 ->
 Proof. exact diff_bytes_valQ. Qed.
 Print Assumptions C39_difference_exact.
 
+(* NESTED DRAWS: an argument expression that itself draws is evaluated first; the outer call works on the
+   seed the inner draws leave behind.  RND(RND) is two steps (unless the inner value is 0, when it is RND(0)),
+   RND(0*RND) is the inner draw's value again, and in general RND(e) = RND(value of e) from the seed after e *)
+Theorem C39_nested_draws : forall s, 0 <= s < 2 ^ 24 ->
+  (cycle s <> 0 ->
+   step s (ONest (NArg NPlain)) = (cycle (cycle s), Ok (rnd_bytes (cycle (cycle s))))) /\
+  step s (ONest (NArg (NZero NPlain))) = (cycle s, Ok (rnd_bytes (cycle s))) /\
+  (forall e s1 b, neval s e = (s1, Ok b) ->
+   neval s (NArg e) = split_res s1 (rnd_fn s1 (Some (VSng b)))).
+Proof.
+  intros s Hs. split; [exact (nested_positive s Hs)|]. split; [exact (nested_zero s)|].
+  intros e s1 b. exact (nested_order s e s1 b).
+Qed.
+Print Assumptions C39_nested_draws.
+
 (* non-vacuity: the hypotheses of the theorems above are satisfiable (stated without pinning the
    generator's constants, which the property text does not fix) *)
 Example C39_nonvacuous :
